@@ -374,7 +374,8 @@ class Response:
                 filesize = os.fstat(fileno).st_size
                 nbytes = filesize - offset
             else:
-                nbytes = self.response_length
+                # only what is left of the declared length
+                nbytes = max(self.response_length - self.sent, 0)
         except (OSError, io.UnsupportedOperation):
             return False
 
